@@ -951,6 +951,9 @@ func (vc *FuncVC) calleeShort(c *ssa.CallCommon) string {
 }
 
 func (vc *FuncVC) execInstr(s *State, in ssa.Instruction) {
+	if in.Pos().IsValid() {
+		vc.curPos = in.Pos()
+	}
 	switch x := in.(type) {
 	case *ssa.DebugRef:
 	case *ssa.Alloc:
@@ -1073,6 +1076,10 @@ func (vc *FuncVC) execInstr(s *State, in ssa.Instruction) {
 		k := vc.val(s, x.Key)
 		v := vc.val(s, x.Value)
 		vc.safety(s, "safe.mapw", "mapwrite:"+vc.describe(x.Map), x.Pos(), not(eq(m, T("Int", "0"))))
+		if f, src := vc.elemInv(s, x.Map.Type().Underlying().(*types.Map).Elem(), v); f.S != "true" {
+			n := vc.siteCounter("safe.elem")
+			vc.oblige("safe.elem", fmt.Sprintf("safe.elem@mapstore#%d", n), "element invariant: "+src, x.Pos(), s.pc, f)
+		}
 		dk, vk, ds, vs := vc.mapKeys(x.Map.Type())
 		d := vc.get(s, dk, ds)
 		vv := vc.get(s, vk, vs)
@@ -1106,6 +1113,10 @@ func (vc *FuncVC) execInstr(s *State, in ssa.Instruction) {
 		vc.set(s, "A:"+sort, app(hs, "store", h, r, vc.ss.zero("(Array Int "+sort+")")))
 		vc.noteWrite("A:" + sort)
 		vc.safety(s, "safe.slice", "makeslice", x.Pos(), T("Bool", fmt.Sprintf("(and (<= 0 %s) (<= %s %s))", ln.S, ln.S, cp.S)))
+		if f, src := vc.elemInv(s, x.Type().Underlying().(*types.Slice).Elem(), vc.ss.zero(sort)); f.S != "true" {
+			n := vc.siteCounter("safe.elem")
+			vc.oblige("safe.elem", fmt.Sprintf("safe.elem@make#%d", n), "make(): zero elements must satisfy the element invariant or the length be 0: "+src, x.Pos(), s.pc, or(eq(ln, intLit(0)), f))
+		}
 		vc.setReg(x, T("Slice", fmt.Sprintf("(mkS %s 0 %s %s)", r.S, ln.S, cp.S)))
 	case *ssa.Slice:
 		vc.sliceOp(s, x)
@@ -1212,7 +1223,12 @@ func (vc *FuncVC) lookup(s *State, x *ssa.Lookup) {
 		_, vinner := splitArraySort(vs)
 		es := vc.ss.sortOf(mt.Elem())
 		dom := app("Bool", "select", app(dinner, "select", d, m), k)
-		val := ite(dom, app(es, "select", app(vinner, "select", vv, m), k), vc.ss.zero(es))
+		stored := app(es, "select", app(vinner, "select", vv, m), k)
+		if f, src := vc.elemInv(s, mt.Elem(), stored); f.S != "true" {
+			vc.assume(s.pc, imp(dom, f))
+			vc.assumedUsed["global element invariant on map values "+normType(mt.Elem())+": "+src] = true
+		}
+		val := ite(dom, stored, vc.ss.zero(es))
 		val.GoT = mt.Elem()
 		if x.CommaOk {
 			vc.tuples[x] = []Term{val, dom}
